@@ -492,7 +492,18 @@ def _maybe_native(out):
 _OPF = {ast.Add: add, ast.Sub: sub, ast.Mult: mul, ast.Div: truediv, ast.FloorDiv: floordiv, ast.Mod: mod, ast.Pow: power}
 
 
+def _decay(out):
+    """numpy arithmetic on 0-d arrays yields scalars"""
+    if isinstance(out, np.ndarray) and out.ndim == 0:
+        return out[()]
+    return out
+
+
 def np_binop(interp, op, a, b):
+    return _decay(_np_binop(interp, op, a, b))
+
+
+def _np_binop(interp, op, a, b):
     if not contains_sym(a) and not contains_sym(b):
         nat = {ast.Add: operator.add, ast.Sub: operator.sub, ast.Mult: operator.mul, ast.Div: operator.truediv,
                ast.FloorDiv: operator.floordiv, ast.Mod: operator.mod, ast.Pow: operator.pow, ast.MatMult: operator.matmul,
